@@ -714,9 +714,11 @@ PROPS = {
     "C05": dict(
         level="proof",
         claim="Deductive proof that frame length is 69888/70908 (Kani on the real spec tables), that wait_internal conserves total time = frames*F + offset with the overrun carried (Verus, all clocks), that INT is high exactly for in-frame clocks 0..31, plus a syntactic frame obligation that nothing else writes the time fields.",
-        note="Assumes: emulate_frames reaches time only through the contracted bus methods; 'exactly one interrupt per frame' is a stated corollary with C02, not mechanised.",
+        note="Assumes: emulate_frames reaches time only through the contracted bus methods; 'exactly one interrupt per frame' is a corollary with C02 (acceptance rules) that is not mechanised as a whole; the part of it that depends on the instruction mix - every instruction of every prefix class ends with the interrupt shadow clear wherever the Z80 clears it, so INT is sampled at least every 23 T and the 32-T pulse cannot be stepped over - is the K-z80 step-equivalence obligation `C02/C05.state no instruction leaves the interrupt shadow set`, run by this check over all ten instruction-class harnesses.",
         verus=["ctl"],
-        kani=[K_MACHINE],
+        kani=[K_MACHINE,
+              k_z80("K-z80::int-sampling", ["plain_all", "cbx_all", "ed_all", "dd_all", "fd_all", "ddcb_idx", "fdcb_idx",
+                                            "pend_dd", "pend_fd", "pend_ed"])],
         scans=[scan_time_writers],
         explanation="frame length constants (Kani on the real tables), time conservation "
                     "total' == total + clk for wait_internal (Verus), INT window == in-frame clocks 0..31",
